@@ -712,6 +712,51 @@ fn run(plan: &Plan, ctx: &mut Ctx) -> R {
     Ok(())
 }
 
+/// "Counter period" history (as in the `bdd` world): f and g over disjoint variables; f is conditioned a few times,
+/// then exactly M conditioning calls work on g only, then f is conditioned / quantified / composed again with other
+/// arguments; M sits next to 2^8 / 2^16 minus a small offset (exists and compose condition twice), so that some pair
+/// of calls on f is exactly one period of a narrow per-call counter apart.
+pub fn period_ops(o: &mut Rng, c: &mut Rng) -> Vec<Op> {
+    let mut ops: Vec<Op> = Vec::new();
+    // every operation below pushes exactly one handle: pool size == number of operations so far
+    let at = |ops: &Vec<Op>, j: usize| -> i64 { (2 * (ops.len() - 1 - j)) as i64 };
+    for v in [0i64, 1, 2, 4, 5, 6] {
+        ops.push(Op { c: 0, k: K_VAR, a: [v, 0, 0, 1] });
+    }
+    let bin = |o: &mut Rng| *o.pick(&[K_AND, K_OR, K_XOR, K_IFF]);
+    let (k0, k1, k2, k3) = (bin(o), bin(o), bin(o), bin(o));
+    let a = [at(&ops, 0), at(&ops, 1), 0, 0];
+    ops.push(Op { c: 0, k: k0, a });
+    let a = [at(&ops, 6), at(&ops, 2), 0, 0];
+    ops.push(Op { c: 0, k: k1, a });
+    let a = [at(&ops, 3), at(&ops, 4), 0, 0];
+    ops.push(Op { c: 0, k: k2, a });
+    let a = [at(&ops, 8), at(&ops, 5), 0, 0];
+    ops.push(Op { c: 0, k: k3, a });
+    let (f, g) = (7usize, 9usize);
+    let (n1, n2) = (1 + o.below(4), 2 + o.below(5));
+    for _ in 0..n1 {
+        let a = [at(&ops, f), o.below(3) as i64, 0, o.below(2) as i64];
+        ops.push(Op { c: 0, k: K_COND, a });
+    }
+    let period: u64 = if c.below(3) == 0 { 256 } else { 65_536 };
+    let m = match c.below(8) {
+        0 => period + 1,
+        1 => period,
+        _ => period - 1 - c.below(2 * (n1 + n2) + 2),
+    };
+    for _ in 0..m {
+        let a = [at(&ops, g), 4 + o.below(3) as i64, 0, o.below(2) as i64];
+        ops.push(Op { c: 0, k: K_COND, a });
+    }
+    for _ in 0..n2 {
+        let k = *o.pick(&[K_COND, K_COND, K_EXISTS, K_COMPOSE]);
+        let a = if k == K_COMPOSE { [at(&ops, f), at(&ops, 6), o.below(3) as i64, 0] } else { [at(&ops, f), o.below(3) as i64, 0, o.below(2) as i64] };
+        ops.push(Op { c: 0, k, a });
+    }
+    ops
+}
+
 impl World for SddWorld {
     fn name(&self) -> &'static str {
         "sdd"
@@ -758,7 +803,15 @@ impl World for SddWorld {
         let marathon = compress && c.below(300) == 0;
         let len = if marathon { 1_500 + o.below(4_500) } else { 8 + o.below(if thorough { 150 } else { 70 }) };
         let mut ops = Vec::new();
-        for _ in 0..len {
+        // one run in 500 is a "counter period" history (see `period_ops`)
+        let period = c.below(500) == 0;
+        if period {
+            cfg.insert("nvars".into(), 7);
+            cfg.insert("period".into(), 1);
+            ops = period_ops(&mut o, &mut c);
+            rates = [0u16; NUM_SITES];
+        }
+        for _ in 0..(if period { 0 } else { len }) {
             let caller = s.below(ncallers) as u8;
             let k = o.weighted(&w) as u8;
             let a = match k {
